@@ -1032,6 +1032,26 @@ func (fr *FnRun) collectLocals() {
 // among the candidate values defined on this path, the one defined last in
 // dominance order (straight-line reassignment); ambiguous names are skipped.
 func (fr *FnRun) bindLocals(st *State, vars map[string]Val) {
+	fr.bindLocalsAt(st, vars, nil)
+}
+
+// bindLocalsAt: as bindLocals, for a known program point: only definitions that dominate `at`
+// can be the current value of a name there (a value assigned in one arm of an if is not the
+// value after the join - the phi is).
+func (fr *FnRun) bindLocalsAt(st *State, vars map[string]Val, at ssa.Instruction) {
+	dominatesAt := func(v ssa.Value) bool {
+		if at == nil {
+			return true
+		}
+		in, ok := v.(ssa.Instruction)
+		if !ok {
+			return true // parameters, free variables
+		}
+		if in.Block() == at.Block() {
+			return indexOf(in.Block().Instrs, in) < indexOf(at.Block().Instrs, at)
+		}
+		return in.Block().Dominates(at.Block())
+	}
 	for name, cands := range fr.locals {
 		if _, taken := vars[name]; taken {
 			continue
@@ -1039,7 +1059,7 @@ func (fr *FnRun) bindLocals(st *State, vars map[string]Val) {
 		var defined []ssa.Value
 		ambiguous := false
 		for _, c := range cands {
-			if _, ok := st.vals[c]; ok {
+			if _, ok := st.vals[c]; ok && dominatesAt(c) {
 				defined = append(defined, c)
 			}
 		}
